@@ -2,6 +2,7 @@ import Driver.Util
 import GqlgenVerif.Model.Naming
 import GqlgenVerif.Model.TypeRef
 import GqlgenVerif.Model.Flavour
+import GqlgenVerif.Model.PkgName
 /-! Line-protocol driver for C17: the naming model on the harness's cases. Text travels as hex of UTF-8;
 the model works on code points (the harness sends ASCII, type identifiers are returned as code points
 re-encoded to UTF-8). -/
@@ -199,8 +200,49 @@ def flavStep : String :=
   " ## ".intercalate (bad.map fun (f, l, vs, segs, _, fn) =>
     s!"{f}:{l} @@ {GqlgenVerif.Flavour.render (GqlgenVerif.Flavour.toFn vs segs)} @@ {GqlgenVerif.Flavour.render fn}")
 
+/-- `E` / `E:<name hex>=<clause hex | ->,…` : the entries NameForDir finds (`-` = does not parse as a Go file) -/
+def parseDir (s : String) : Option GqlgenVerif.PkgName.Dir :=
+  if s == "A" then some .absFails
+  else if s == "U" then some .unreadable
+  else if s == "E" then some (.entries [])
+  else match s.splitOn ":" with
+    | ["E", es] => do
+      let l ← (es.splitOn ",").mapM fun e => match e.splitOn "=" with
+        | [n, c] => do
+          let n ← ofHex n
+          if c == "-" then pure (GqlgenVerif.PkgName.Entry.mk n none) else do
+            let c ← ofHex c
+            pure (GqlgenVerif.PkgName.Entry.mk n (some c))
+        | _ => none
+      pure (.entries l)
+    | _ => none
+
+/-- package names derived from the output directory (Model/PkgName.lean over Gen/PkgNameRules.lean) -/
+def pkgStep : List String → Option String
+  | ["spkg", h] => do
+    let n ← cpOfHex h
+    pure (toHex (GqlgenVerif.PkgName.sanitizePkg n))
+  | ["nfd", h, d] => do
+    let n ← cpOfHex h
+    let d ← parseDir d
+    pure (toHex (GqlgenVerif.PkgName.nameForDir n d))
+  -- what Check() leaves in the section's Package: `secpkg <section> <configured hex|-> <base hex> <dir>`
+  | ["secpkg", sec, cfg, h, d] => do
+    let n ← cpOfHex h
+    let d ← parseDir d
+    let c ← (if cfg == "-" then some [] else cpOfHex cfg)
+    let how ← (GqlgenVerif.Gen.PkgNameRules.derivedPackage.find? (·.1 == sec)).map (·.2)
+    pure (toHex (GqlgenVerif.PkgName.sectionPackage how c n d))
+  -- Spec on the name the IMPLEMENTATION derived
+  | ["chkpkg", h] =>
+    match cpOfHex h with
+    | some n => some (if GqlgenVerif.PkgName.validPkgName n then "ok" else "violates:invalid-package-name")
+    | none => some "violates:invalid-package-name"
+  | _ => none
+
 def step (line : String) : String :=
   if line == "flav" then flavStep else
+  if let some r := pkgStep (line.splitOn " ") then r else
   if let some r := typeRefStep (line.splitOn " ") then r else
   match line.splitOn " " with
   | ["togo", h] => match ofHex h with | some n => toHex (toGo n) | none => "bad-op"
